@@ -389,7 +389,7 @@ def misc_part(st, ctx, out):
     sim = new_sim(st, interrupts=False)
     common.set_interrupts(sim, (1, 2, 0)[ch.draw(3)])
     L = lib()
-    what = ch.draw(5)
+    what = ch.draw(6)
     problems = []
     detail = {}
 
@@ -463,10 +463,36 @@ def misc_part(st, ctx, out):
                 problems.append("closing awaited aclose %d times" % Thing.closed)
 
         sim.spawn(task())
+    elif what == 5:
+        # misuse the library refuses: one scoped_iter context object entered again while it is entered. Refusing is the
+        # library's right - finding out *who* misuses it by asking asyncio for the current task is not (no loop runs)
+        k_next = ch.draw(3)
+        detail = {"kind": "scoped_iter context entered twice", "source_suspends": k_next}
+
+        async def numbers():
+            for i in range(3):
+                await pause(k_next, "numbers")
+                yield i
+
+        async def task():
+            context = L.scoped_iter(numbers())
+            async with context as first:
+                await first.__anext__()
+                try:
+                    async with context:
+                        problems.append("the same context object could be entered twice")
+                except BaseException as err:
+                    if type(err).__name__ == "Cancel":
+                        raise
+                    if "event loop" in str(err):
+                        problems.append("refusing the misuse needed an event loop: %r" % (err,))
+                await first.__anext__()
+
+        sim.spawn(task())
     elif what == 4:
         # iterators handed out by one tool (tee children, groups) consumed by another tool that stops early and closes
         # what it was given: closing the last live tee child closes the source, whose aclose suspends
-        n = ch.between(1, 3)
+        n = ch.between(1, 3) if not ch.chance(1, 6) else 0  # (tee(source, 0): no children at all)
         k_close = ch.between(1, 2)
         consumer = ch.draw(5)
         length = ch.between(2, 5)
@@ -494,6 +520,14 @@ def misc_part(st, ctx, out):
 
         async def task():
             feed = Feed()
+            if n == 0:
+                handle = L.tee(feed, 0)
+                if len(handle) != 0:
+                    problems.append("tee(source, 0) has %d children" % len(handle))
+                await handle.aclose()
+                if feed.closed > 1:
+                    problems.append("source closed %d times" % feed.closed)
+                return
             children = list(L.tee(feed, n))
             for c in children[1:]:
                 await c.aclose()
@@ -594,7 +628,7 @@ def misc_part(st, ctx, out):
         sim.spawn(task())
     run_sim(sim)
     sig = ("misc", ("exitstack_two_tasks", "closing", "generator_based_coroutines", "zip_close_failures",
-                    "tee_child_closed_by_another_tool")[what])
+                    "tee_child_closed_by_another_tool", "scoped_iter_entered_twice")[what])
     if sim.deadlock:
         out.violate("C17.deadlock", sig, detail)
     elif not sim.capped:
